@@ -95,7 +95,8 @@ pub fn build(raw: &RawPos) -> Pos {
             p.ep = Some(t);
         }
     }
-    p.half = raw.half as u32;
+    // a double step has just been made when a target is set, so the clock is 0
+    p.half = if p.ep.is_some() { 0 } else { raw.half as u32 };
     debug_assert!(p.consistent().is_ok(), "{:?} {}", p.consistent(), p.fen());
     p
 }
@@ -861,6 +862,62 @@ pub fn pre_terminal() -> BoxedStrategy<String> {
             let mut q = if cur.legal_moves().is_empty() { prev } else { cur };
             q.half = 0;
             q.fen()
+        })
+        .boxed()
+}
+
+/// A king in a corner hemmed in by its own men, and a lone enemy knight or bishop (plus king)
+/// that can deliver, or has just delivered, the smothered mate.
+pub fn smother_theme() -> BoxedStrategy<String> {
+    (
+        0u8..4,                                   // corner
+        prop::collection::vec(0u8..5, 3),          // the three neighbours: 0 empty-ish pawn .. 4 queen
+        any::<bool>(),                            // knight or bishop
+        any::<u16>(),                             // attacker origin selector
+        any::<bool>(),                            // attacker already on the mating square / one move away
+        0u8..64,                                  // attacking king
+        any::<bool>(),                            // colours swapped
+    )
+        .prop_map(|(corner, nb, knight, sel, delivered, ak, swap)| {
+            let k: u8 = [0u8, 7, 56, 63][corner as usize];
+            let (kf, kr) = (file_of(k), rank_of(k));
+            let fdir: i8 = if kf == 0 { 1 } else { -1 };
+            let rdir: i8 = if kr == 0 { 1 } else { -1 };
+            let n1 = sq_of(kf + fdir, kr).unwrap();
+            let n2 = sq_of(kf, kr + rdir).unwrap();
+            let n3 = sq_of(kf + fdir, kr + rdir).unwrap();
+            let defender_white = !swap;
+            let mut items: Vec<(u8, u8, bool)> = Vec::new();
+            for (s, t) in [(n1, nb[0]), (n2, nb[1]), (n3, nb[2])] {
+                // type 0 = pawn (skipped on a back rank by build)
+                items.push((s, t, defender_white));
+            }
+            // the classic mating squares: knight on (kf + fdir, kr + 2 rdir) / bishop on the long diagonal
+            let mate_sq = if knight {
+                sq_of(kf + fdir, kr + 2 * rdir).unwrap()
+            } else {
+                sq_of(kf + 2 * fdir, kr + 2 * rdir).unwrap()
+            };
+            let t: u8 = if knight { 1 } else { 2 };
+            let attacker_sq = if delivered {
+                mate_sq
+            } else {
+                let origins = attack_origins(t, !defender_white, mate_sq);
+                pick(&origins, sel).unwrap_or(mate_sq)
+            };
+            items.push((attacker_sq, t, !defender_white));
+            let (wk, bk) = if defender_white { (k, ak) } else { (ak, k) };
+            let p = build(&RawPos {
+                wk,
+                bk,
+                items,
+                // delivered: the defender is to move (mated or not); else the attacker moves
+                white_to_move: if delivered { defender_white } else { !defender_white },
+                rights: 0,
+                ep_file: None,
+                half: 0,
+            });
+            p.fen()
         })
         .boxed()
 }
